@@ -1,4 +1,272 @@
-From WK Require Import Base.Base Model.WorkQueue.
+(* C37 — Work queues run each accepted task exactly once.
+
+   Three transition systems over the code's own atomic (lock-protected /
+   channel / atomic-flag) steps:
+     w_run  : BoundedWorkerQueue        (Model/WorkQueue_worker.v)
+     d_run  : BoundedPool and BoundedBatchPool, one system (Model/WorkQueue_dpool.v)
+     m_run  : ShardedMailbox            (Model/WorkQueue_mailbox.v)
+   [x_run cf evs] executes an ARBITRARY interleaving [evs] of any number of
+   producer goroutines, the dispatcher / workers / shard drains and one Close
+   caller.  Every theorem below is over all [evs].  [x_hist] is the recorded
+   history (completed Submit calls, handler deliveries, CancelAccepted hooks,
+   Close calls, shard drains; all stamped by the logical clock) and
+   [C37_monitor] is the boolean property evaluated by ./check on the histories
+   recorded from the real queues.
+
+   The full statement "every admitted task has exactly one terminal event
+   before Close returns" is TRUE for BoundedWorkerQueue and for BoundedBatchPool
+   without cancel-on-close flags, and FALSE — of the model and of the code — for
+   BoundedPool (K1), ShardedMailbox (K2), BoundedBatchPool with
+   CancelRunningOnClose only (K3) and with CancelAcceptedOnClose (K4): see the
+   [_refuted] theorems (witness schedules, replayed on the real code by
+   corpus/C37) and the [_partial] / [_close_waits] theorems, which state exactly
+   what does hold. *)
+From WK Require Import Base.Base Model.WorkQueue Model.WorkQueue_worker Model.WorkQueue_dpool Model.WorkQueue_mailbox.
+From WK Require Proof.WorkQueue Proof.WorkQueue_worker Proof.WorkQueue_dpool Proof.WorkQueue_mailbox.
 Open Scope N_scope.
-Example c37_placeholder : comb 0 2 = 2.
-Proof. reflexivity. Qed.
+
+(* ================= BoundedWorkerQueue: the full property ================= *)
+
+(* never run twice *)
+Theorem c37_worker_at_most_once : forall cf, c_workers cf <> 0 -> forall evs,
+  NoDup (map r_task (w_runs (w_run cf evs))).
+Proof. exact WK.Proof.WorkQueue_worker.w_at_most_once. Qed.
+Print Assumptions c37_worker_at_most_once.
+
+(* a Submit that returned ErrFull / ErrClosed never reaches the handler *)
+Theorem c37_worker_rejected_never_runs : forall cf, c_workers cf <> 0 -> forall evs sb,
+  In sb (w_subs (w_run cf evs)) -> s_res sb <> ROk ->
+  ~ In (s_task sb) (map r_task (w_runs (w_run cf evs))).
+Proof. exact WK.Proof.WorkQueue_worker.w_rejected_never_runs. Qed.
+Print Assumptions c37_worker_rejected_never_runs.
+
+(* exactly once + close waits: when Close has returned, every admitted task has
+   completed its handler call before that return *)
+Theorem c37_worker_close_waits : forall cf, c_workers cf <> 0 -> forall evs c sb,
+  In c (w_clos (w_run cf evs)) -> In sb (w_subs (w_run cf evs)) -> s_res sb = ROk ->
+  exists r, In r (w_runs (w_run cf evs)) /\ r_task r = s_task sb /\ r_e r < l_e c.
+Proof. exact WK.Proof.WorkQueue_worker.w_close_waits. Qed.
+Print Assumptions c37_worker_close_waits.
+
+Theorem c37_worker_model_satisfies_monitor : forall cf, c_workers cf <> 0 -> c_kind cf = KWorker ->
+  forall evs, C37_monitor (w_hist cf (w_run cf evs)) = 0.
+Proof. exact WK.Proof.WorkQueue_worker.w_monitor. Qed.
+Print Assumptions c37_worker_model_satisfies_monitor.
+
+Theorem c37_worker_model_accepted : forall cf, c_workers cf <> 0 ->
+  forall evs, C37_mismatch (w_hist cf (w_run cf evs)) = false.
+Proof. exact WK.Proof.WorkQueue_worker.w_accepts. Qed.
+Print Assumptions c37_worker_model_accepted.
+
+(* ================= BoundedPool / BoundedBatchPool ================= *)
+
+(* at most one terminal event per task: never run twice, never run and cancelled, never cancelled twice *)
+Theorem c37_dpool_at_most_once : forall cf, c_workers cf <> 0 -> forall evs,
+  NoDup (map r_task (d_runs (d_run cf evs)) ++ map k_task (d_cans (d_run cf evs))).
+Proof. exact WK.Proof.WorkQueue_dpool.d_at_most_once. Qed.
+Print Assumptions c37_dpool_at_most_once.
+
+Theorem c37_dpool_rejected_never_runs : forall cf, c_workers cf <> 0 -> forall evs sb,
+  In sb (d_subs (d_run cf evs)) -> s_res sb <> ROk ->
+  ~ In (s_task sb) (map r_task (d_runs (d_run cf evs)) ++ map k_task (d_cans (d_run cf evs))).
+Proof. exact WK.Proof.WorkQueue_dpool.d_rejected_never_runs. Qed.
+Print Assumptions c37_dpool_rejected_never_runs.
+
+(* the cancellation hook is used only when CancelAcceptedOnClose is configured *)
+Theorem c37_dpool_cancel_only_if_configured : forall cf, c_workers cf <> 0 -> forall evs,
+  d_cans (d_run cf evs) <> [] -> ca cf = true.
+Proof. exact WK.Proof.WorkQueue_dpool.d_cancel_only_if_configured. Qed.
+Print Assumptions c37_dpool_cancel_only_if_configured.
+
+(* FULL statement (exactly once + close waits) for BoundedBatchPool without
+   cancel-on-close flags: the monitor — at most once, rejected never runs, every
+   admitted task's handler call completed before Close returned — is 0 *)
+Theorem c37_batch_exactly_once : forall cf, c_workers cf <> 0 -> c_kind cf = KPool \/ c_kind cf = KBatch ->
+  forall evs, is_batch cf = true -> ca cf = false -> cr cf = false ->
+  C37_monitor (d_hist cf (d_run cf evs)) = 0.
+Proof. exact WK.Proof.WorkQueue_dpool.d_monitor_plain. Qed.
+Print Assumptions c37_batch_exactly_once.
+
+(* PARTIAL (all configurations): when Close has returned, an admitted task has
+   run, or was cancelled, before that return — or it has no terminal event at all,
+   the dispatcher has left, and the task is stranded in the queue / was released
+   by retryExecutor.  (BoundedPool: only a Submit that overlapped Close can be
+   stranded — that is what [c37_dpool_model_satisfies_monitor] adds.) *)
+Theorem c37_dpool_close_waits_partial : forall cf, c_workers cf <> 0 -> forall evs c sb,
+  In c (d_clos (d_run cf evs)) -> In sb (d_subs (d_run cf evs)) -> s_res sb = ROk ->
+  let s := d_run cf evs in
+  (exists r, In r (d_runs s) /\ r_task r = s_task sb /\ r_e r < l_e c)
+  \/ (exists k, In k (d_cans s) /\ k_task k = s_task sb /\ k_at k < l_e c)
+  \/ (~ In (s_task sb) (map r_task (d_runs s) ++ map k_task (d_cans s))
+      /\ d_disp s = DExit /\ s_b sb < l_e c /\ l_b c = d_cb s
+      /\ (In (s_task sb) (d_queue s) \/ In (s_task sb) (d_lost s))).
+Proof. exact WK.Proof.WorkQueue_dpool.d_close_waits. Qed.
+Print Assumptions c37_dpool_close_waits_partial.
+
+(* every history of the model satisfies the monitor or matches EXACTLY the
+   known-finding signature of its configuration:
+   BoundedPool 2 (K1), batch + CancelAcceptedOnClose 5 (K4),
+   batch + CancelRunningOnClose only 4 (K3), plain batch 0 *)
+Theorem c37_dpool_model_satisfies_monitor : forall cf, c_workers cf <> 0 -> c_kind cf = KPool \/ c_kind cf = KBatch ->
+  forall evs,
+  C37_monitor (d_hist cf (d_run cf evs)) = 0
+  \/ C37_monitor (d_hist cf (d_run cf evs))
+     = (if is_batch cf then (if ca cf then 5 else if cr cf then 4 else 0) else 2).
+Proof. exact WK.Proof.WorkQueue_dpool.d_monitor. Qed.
+Print Assumptions c37_dpool_model_satisfies_monitor.
+
+Theorem c37_dpool_model_accepted : forall cf, c_workers cf <> 0 ->
+  forall evs, C37_mismatch (d_hist cf (d_run cf evs)) = false.
+Proof. exact WK.Proof.WorkQueue_dpool.d_accepts. Qed.
+Print Assumptions c37_dpool_model_accepted.
+
+(* K1 — BoundedPool: Submit passes closed.Load, Close runs to completion (closed.Store,
+   close(stop), dispatcher drains the empty queue and leaves, Close returns nil), then the
+   Submit's two selects both pick the non-stop case: accepted, never run. *)
+Definition c37_cfg_pool : cfg := Cfg KPool 2 4 1 1 false false.
+Definition c37_k1_schedule : list dev :=
+  [DCall 0 false; DStep 0 false; DCloseCall; DCloseStep; DCloseStep; DDisp ChStop; DDisp ChTake; DCloseStep;
+   DStep 0 false; DStep 0 false].
+Theorem c37_pool_exactly_once_refuted :
+  let s := d_run c37_cfg_pool c37_k1_schedule in
+  map s_res (d_subs s) = [ROk] /\ d_runs s = [] /\ d_cans s = [] /\ map l_ok (d_clos s) = [true]
+  /\ C37_monitor (d_hist c37_cfg_pool s) = 2.
+Proof. vm_compute. repeat split; reflexivity. Qed.
+Print Assumptions c37_pool_exactly_once_refuted.
+
+(* K3 — CancelRunningOnClose only: one worker busy, dispatcher retrying the second item,
+   a third item queued; Close cancels the runtime context, retryExecutor takes ctx.Done,
+   releases its batch and the dispatcher leaves: two accepted items never run, no hook. *)
+Definition c37_submit (t : nat) : list dev := [DCall t false; DStep t false; DStep t false; DStep t false; DStep t false].
+Definition c37_cfg_batch_cr : cfg := Cfg KBatch 1 8 1 1 false true.
+Definition c37_k3_schedule : list dev :=
+  c37_submit 0 ++ [DDisp ChTake; DDisp ChGo; DDisp ChGo; DDisp (ChOk 0); DWork 0] ++ c37_submit 0 ++ c37_submit 0
+  ++ [DDisp ChTake; DDisp ChGo; DDisp ChGo; DDisp ChOverload; DCloseCall; DCloseStep; DCloseStep; DDisp ChCtx; DWork 0; DCloseStep].
+Theorem c37_batch_cancel_running_refuted :
+  let s := d_run c37_cfg_batch_cr c37_k3_schedule in
+  map s_res (d_subs s) = [ROk; ROk; ROk] /\ length (d_runs s) = 1%nat /\ d_cans s = [] /\ map l_ok (d_clos s) = [true]
+  /\ C37_monitor (d_hist c37_cfg_batch_cr s) = 4.
+Proof. vm_compute. repeat split; reflexivity. Qed.
+Print Assumptions c37_batch_cancel_running_refuted.
+
+(* K4 — CancelAcceptedOnClose: same situation; retryExecutor takes <-stop, cancels its batch
+   and returns false; dispatch returns without cancelQueued: the queued item has neither
+   handler nor hook. *)
+Definition c37_cfg_batch_ca : cfg := Cfg KBatch 1 8 1 1 true false.
+Definition c37_k4_schedule : list dev :=
+  c37_submit 0 ++ [DDisp ChTake; DDisp ChGo; DDisp ChGo; DDisp (ChOk 0); DWork 0] ++ c37_submit 0 ++ c37_submit 0
+  ++ [DDisp ChTake; DDisp ChGo; DDisp ChGo; DDisp ChOverload; DCloseCall; DCloseStep; DCloseStep; DDisp ChStop; DWork 0; DCloseStep].
+Theorem c37_batch_cancel_accepted_refuted :
+  let s := d_run c37_cfg_batch_ca c37_k4_schedule in
+  map s_res (d_subs s) = [ROk; ROk; ROk] /\ length (d_runs s) = 1%nat /\ length (d_cans s) = 1%nat
+  /\ map l_ok (d_clos s) = [true] /\ C37_monitor (d_hist c37_cfg_batch_ca s) = 5.
+Proof. vm_compute. repeat split; reflexivity. Qed.
+Print Assumptions c37_batch_cancel_accepted_refuted.
+
+(* ================= ShardedMailbox ================= *)
+
+Theorem c37_mailbox_at_most_once : forall cf evs, NoDup (map r_task (m_runs (m_run cf evs))).
+Proof. exact WK.Proof.WorkQueue_mailbox.m_at_most_once. Qed.
+Print Assumptions c37_mailbox_at_most_once.
+
+Theorem c37_mailbox_rejected_never_runs : forall cf evs sb,
+  In sb (m_subs (m_run cf evs)) -> s_res sb <> ROk -> ~ In (s_task sb) (map r_task (m_runs (m_run cf evs))).
+Proof. exact WK.Proof.WorkQueue_mailbox.m_rejected_never_runs. Qed.
+Print Assumptions c37_mailbox_rejected_never_runs.
+
+(* c37_single_drain: drains of one shard never overlap — a drain of the shard begins
+   only after every earlier drain of that shard has gone through finishShardDrain
+   ([m_drains] is newest first) ... *)
+Theorem c37_single_drain : forall cf evs l1 a l2 d,
+  m_drains (m_run cf evs) = l1 ++ a :: l2 -> In d l2 -> d_shard d = d_shard a -> d_e d < d_b a.
+Proof. exact WK.Proof.WorkQueue_mailbox.m_drains_ordered. Qed.
+Print Assumptions c37_single_drain.
+
+(* ... and handler calls of one shard never overlap (same call, or the older one returned first) *)
+Theorem c37_single_drain_batches : forall cf evs l1 a l2 r,
+  m_runs (m_run cf evs) = l1 ++ a :: l2 -> In r l2 -> r_shard r = r_shard a -> r_b r = r_b a \/ r_e r < r_b a.
+Proof. exact WK.Proof.WorkQueue_mailbox.m_batches_ordered. Qed.
+Print Assumptions c37_single_drain_batches.
+
+(* c37_shard_fifo: if Submit a returned before Submit b was called (same shard, both
+   admitted) then a is delivered before b: in an earlier handler call, or earlier in the
+   same batch slice *)
+Theorem c37_shard_fifo : forall cf evs a b ra rb,
+  In a (m_subs (m_run cf evs)) -> In b (m_subs (m_run cf evs)) -> s_res a = ROk -> s_res b = ROk ->
+  s_shard a = s_shard b -> s_e a < s_b b ->
+  In ra (m_runs (m_run cf evs)) -> In rb (m_runs (m_run cf evs)) -> r_task ra = s_task a -> r_task rb = s_task b ->
+  r_b ra < r_b rb \/ (r_b ra = r_b rb /\ r_pos ra < r_pos rb).
+Proof. exact WK.Proof.WorkQueue_mailbox.m_fifo_spec. Qed.
+Print Assumptions c37_shard_fifo.
+
+(* PARTIAL close-waits: when Close has returned, an admitted item was delivered before
+   that return, or it was never delivered and its shard had a drain (K2 window) *)
+Theorem c37_mailbox_close_waits_partial : forall cf evs c sb,
+  In c (m_clos (m_run cf evs)) -> In sb (m_subs (m_run cf evs)) -> s_res sb = ROk ->
+  let s := m_run cf evs in
+  (exists r, In r (m_runs s) /\ r_task r = s_task sb /\ r_e r < l_e c)
+  \/ (~ In (s_task sb) (map r_task (m_runs s)) /\ exists d, In d (m_drains s) /\ d_shard d = s_shard sb).
+Proof. exact WK.Proof.WorkQueue_mailbox.m_close_waits. Qed.
+Print Assumptions c37_mailbox_close_waits_partial.
+
+Theorem c37_mailbox_model_satisfies_monitor : forall cf, c_kind cf = KMailbox -> forall evs,
+  C37_monitor (m_hist cf (m_run cf evs)) = 0 \/ C37_monitor (m_hist cf (m_run cf evs)) = 3.
+Proof. exact WK.Proof.WorkQueue_mailbox.m_monitor. Qed.
+Print Assumptions c37_mailbox_model_satisfies_monitor.
+
+Theorem c37_mailbox_model_accepted : forall cf evs, C37_mismatch (m_hist cf (m_run cf evs)) = false.
+Proof. exact WK.Proof.WorkQueue_mailbox.m_accepts. Qed.
+Print Assumptions c37_mailbox_model_accepted.
+
+(* K2 — the drain has seen its queue empty (TFinish) when a Submit is admitted into the
+   still-scheduled shard; Close stores closed; finishShardDrain sees closed and does not
+   reschedule; wg drops to 0 and Close returns nil: the item is never delivered. *)
+Definition c37_cfg_mailbox : cfg := Cfg KMailbox 1 8 2 2 false false.
+Definition c37_k2_schedule : list mev :=
+  [MCall 0 0; MStep 0; MStep 0; MTok 0 TcStep; MTok 0 TcStep; MTok 0 TcGo; MTok 0 TcStep; MTok 0 TcStep;
+   MCall 1 0; MStep 1; MStep 1; MCloseCall; MCloseStep; MTok 0 TcStep; MCloseStep; MCloseStep].
+Theorem c37_mailbox_close_waits_refuted :
+  let s := m_run c37_cfg_mailbox c37_k2_schedule in
+  map s_res (m_subs s) = [ROk; ROk] /\ length (m_runs s) = 1%nat /\ map l_ok (m_clos s) = [true]
+  /\ C37_monitor (m_hist c37_cfg_mailbox s) = 3.
+Proof. vm_compute. repeat split; reflexivity. Qed.
+Print Assumptions c37_mailbox_close_waits_refuted.
+
+(* ================= non-vacuity ================= *)
+
+(* batch pool, MaxItems 2, one worker: three submits; a batch of two and a batch of one
+   (the second one retried after an overload) run; Close drains and returns *)
+Example c37_example_batch_runs :
+  let cf := Cfg KBatch 1 8 1 2 false false in
+  let evs := c37_submit 0 ++ c37_submit 1 ++ c37_submit 2 ++
+             [DDisp ChTake; DDisp ChTake; DDisp ChGo; DDisp ChGo; DDisp (ChOk 0); DWork 0; DCloseCall; DCloseStep; DCloseStep;
+              DDisp ChStop; DDisp ChGo; DDisp ChGo; DDisp ChGo; DDisp ChOverload; DWork 0; DDisp ChTimer; DDisp ChGo;
+              DDisp (ChOk 0); DDisp ChGo; DWork 0; DWork 0; DCloseStep] in
+  let s := d_run cf evs in
+  map r_task (d_runs s) = [11; 1; 6] /\ map r_pos (d_runs s) = [0; 0; 1] /\ map l_ok (d_clos s) = [true]
+  /\ C37_monitor (d_hist cf s) = 0.
+Proof. vm_compute. repeat split; reflexivity. Qed.
+
+(* mailbox, two shards, batches of 2: FIFO inside shard 0, independent shard 1, a second drain of shard 0 *)
+Example c37_example_mailbox_runs :
+  let cf := c37_cfg_mailbox in
+  let evs := [MCall 0 0; MStep 0; MStep 0; MCall 1 0; MStep 1; MStep 1; MCall 2 1; MStep 2; MStep 2;
+              MTok 0 TcStep; MTok 0 TcStep; MTok 0 TcTake; MTok 0 TcGo; MTok 1 TcStep; MTok 1 TcStep; MTok 1 TcGo;
+              MTok 0 TcStep; MTok 1 TcStep; MCall 0 0; MStep 0; MStep 0; MTok 0 TcStep; MTok 0 TcGo; MTok 0 TcStep;
+              MTok 0 TcStep; MTok 0 TcStep; MTok 1 TcStep; MTok 1 TcStep; MCloseCall; MCloseStep; MCloseStep; MCloseStep] in
+  let s := m_run cf evs in
+  map r_task (m_runs s) = [19; 7; 1; 4] /\ map r_shard (m_runs s) = [0; 1; 0; 0] /\ length (m_drains s) = 2%nat
+  /\ C37_monitor (m_hist cf s) = 0.
+Proof. vm_compute. repeat split; reflexivity. Qed.
+
+(* worker queue, one worker, queue size 1: second Submit is rejected (ErrFull), SubmitWait parks and is admitted
+   after the worker frees the slot; Close drains *)
+Example c37_example_worker_runs :
+  let cf := Cfg KWorker 1 1 1 1 false false in
+  let evs := [WCall 0 false; WStep 0 false; WCall 1 false; WStep 1 false; WCall 2 true; WStep 2 false;
+              WWork 0 false; WWork 0 false; WStep 2 false; WStep 2 false; WWork 0 false;
+              WCloseCall; WCloseStep; WWork 0 false; WWork 0 false; WWork 0 false; WWork 0 true; WWork 0 false; WCloseStep] in
+  let s := w_run cf evs in
+  map s_res (w_subs s) = [ROk; RFull; ROk] /\ map r_task (w_runs s) = [5; 1] /\ map l_ok (w_clos s) = [true]
+  /\ C37_monitor (w_hist cf s) = 0.
+Proof. vm_compute. repeat split; reflexivity. Qed.
